@@ -43,3 +43,17 @@ CLAIMED.update({
 })
 ENGINES += [{"name": "TRACE", "path": "sa/engines/trace.py", "serves_properties": ["C12"],
   "kind_free_text": "enumerates every path of a root function per atomic region and hands the ordered store/call/branch trace to a rule predicate"}]
+
+CLAIMED.update({
+ "C11": {"engine": "AFFINE (FLOW)", "technique": "static analysis: affine bookkeeping with a ghost total and Houdini-inferred loop invariants (rational null spaces), dominance checks",
+         "text": "For every path of get/put: every store to the level is dominated in its atomic region by a test keeping it in [0,capacity] whose own arithmetic cannot wrap; at every return the caller-visible amount equals what the call actually moved (ghost total over all level stores), and a success return moved exactly the request. The loop invariants (*amntp + rem = init, *amntp = moved, ...) are inferred, so behaviour-preserving rewrites do not alarm. Holds for all interleavings because regions between yields are atomic and the level is re-based at every yield.",
+         "note": "amount pointer assumed not to alias the buffer; integers treated mathematically with wrap excluded by the guard rule"},
+ "C07": {"engine": "AFFINE (FLOW) + ORD", "technique": "static analysis: affine bookkeeping with ghost semantics for the holders heap, inferred loop invariants, dominance checks, order abstraction",
+         "text": "For every path of acquire/preempt/release/drop: per atomic region the change of in_use equals the summed change of the recorded holdings; every in_use store stays within [0,capacity]; success leaves the caller's record exactly req above its entry value, interruption exactly at it, release exactly rel below; victims are taken only when strictly lower priority, from a heap ordered lowest-priority-first, and each is untagged and sent PREEMPTED in the same region; records and process-side tags are created and deleted together.",
+         "note": "ghost semantics of enqueue/cancel/dequeue/find_index trusted (justified by cmi_hashheap.c and C02); foreign changes to a caller's record only via PREEMPTED"},
+ "C13": {"engine": "INV", "technique": "static analysis: struct-cast validity over first-member chains, declared-vs-defined symbols, evaluate-all shape, call-graph reachability",
+         "text": "All 151 struct-pointer casts follow first-member chains; every declared condition/guard function is defined; cmb_condition_signal evaluates every queued predicate with its own entry's process/context, wakes exactly the satisfied ones with success at the current time and removes exactly those; wait/cancel/remove/subscribe use the condition's own guard. Observer forwarding reaching an evaluate-all routine is checked and currently reported as a known finding.",
+         "note": "user predicates assumed pure"},
+})
+ENGINES += [{"name": "AFFINE", "path": "sa/engines/affine.py", "serves_properties": ["C07", "C11"],
+  "kind_free_text": "affine forms over symbolic atoms per local and tracked field, ghost totals, loop-head equalities inferred Houdini-style with exact rational linear algebra, obligations discharged by small non-negative combinations"}]
